@@ -207,9 +207,13 @@ theorem evalOKF_all (cfg : Cfg) : ∀ f, EvalOKF cfg f := by
     obtain ⟨F, rfl⟩ : ∃ F, f = F + 1 := ⟨f - 1, by omega⟩
     have ih' : ∀ g, g ≤ F → EvalOKF cfg g := fun g hg => ih g (by omega)
     cases hrep with
-    | @num _ l hk hc ht =>
-      simp only [eval, hk, ht, fromStr_lit l hl.1, evalD, value_percent_false l hl.2]
+    | @num _ l hk hc hp ht =>
+      simp only [eval, hk, ht, fromStr_lit l hl, evalD, value_percent_false l hp]
       exact ⟨rfl, rfl⟩
+    | @pct id n ks l hk ht hp =>
+      simp only [eval, At.kids, kids_node, kind_node, kidsAt, hk, ht, fromStr_lit l hl, evalD,
+        value_percent_true l hp]
+      exact ⟨by simp [pure, strip, plain], rfl⟩
     | @fact _ first more hk hc ht =>
       have hev : eval cfg (F + 1) ⟨off, t⟩ = lookup cfg ⟨off, t⟩ := by
         by_cases hm : more = []
